@@ -219,7 +219,15 @@ def pipeline(job, trace_props=None, tag=""):
         if rc != 0 or not os.path.exists(a_gb):
             raise Undecided("goto-cc failed: " + text[-600:])
         info["stages"]["goto-cc"] = round(dt, 2)
-        loop_check(job, a_gb, log)
+        degraded = None
+        try:
+            loop_check(job, a_gb, log)
+        except Undecided as e:
+            # the loop structure of a function under loop contract changed: the proof cannot be attempted.  Fall back
+            # to a bounded search for counterexamples WITHOUT loop contracts: a failure found there is a real
+            # counterexample of the (changed) code; finding none decides nothing (exit 2).
+            degraded = str(e)
+            info["degraded"] = degraded
         cur = a_gb
         if job.replace_calls:
             c_gb = os.path.join(wd, "c.gb")
@@ -243,7 +251,7 @@ def pipeline(job, trace_props=None, tag=""):
                 cmd += ["--replace-call-with-contract", r]
             for r in job.restrict_fp:
                 cmd += ["--restrict-function-pointer", r]
-            if job.loops:
+            if job.loops and not degraded:
                 lf = os.path.join(wd, "loops.json")
                 if isinstance(job.loops, dict):
                     # {function: [ {loop_id, assigns, invariants, decreases?, symbol_map?}, ... ]}
@@ -266,6 +274,8 @@ def pipeline(job, trace_props=None, tag=""):
         # run with 20 failures five times slower); JSON UI only for the single-property trace run of a replay
         out_txt = os.path.join(wd, "result.json" if trace_props else "result.txt")
         cmd = ["cbmc", cur, "--verbosity", "6", "--drop-unused-functions", "--object-bits", "12"] + job.safety + job.cbmc
+        if degraded:
+            cmd = [c for c in cmd if c != "--unwinding-assertions"] + ["--unwind", "4"]
         if job.solver:
             cmd += ["--" + job.solver]
         if trace_props:
@@ -412,6 +422,16 @@ def run_unit(pid, jobs, tier, seed=0, only=None):
                 continue
         if not rest:
             res.undecided.append((job.name, "vacuity: zero obligations"))
+            continue
+        if info.get("degraded"):
+            # only counterexamples count; nothing is proved
+            bad = [o for o in rest if o.status == "FAILURE" and "unwinding assertion" not in o.desc
+                   and not any(p_ in ("*", pid) and rx.search(o.key()) for (p_, rx, r_) in benign)
+                   and not any(p_ == pid and rx.search(o.key()) for (p_, rx, t_) in known)]
+            for o in bad:
+                res.obls.append(o)
+                res.violations.append(o)
+            res.undecided.append((job.name, "DEGRADED (bounded search only, nothing proved): " + info["degraded"]))
             continue
         if job.loops and not any("loop_invariant_step" in (o.prop or "") for o in rest):
             res.undecided.append((job.name, "loop contracts were not applied (no loop-invariant obligations)"))
